@@ -6,6 +6,7 @@ import (
 	"fmt"
 	"os"
 	"path/filepath"
+	"reflect"
 	"strings"
 	"testing"
 	"time"
@@ -31,6 +32,33 @@ func c09Weekends(content *string) {
 		return
 	}
 	os.WriteFile(p, []byte(*content), 0o666)
+}
+
+// c09CallSpan calls the package's span function through reflection, so that a
+// refactoring of its (unexported) signature does not stop this harness from
+// compiling: parameters are passed as zero values ("no previous span"); if the
+// results are not (time, time, error) the sweep reports that it cannot run.
+var c09SpanFn = reflect.ValueOf(counterSpan)
+
+func c09CallSpan() (begin, end time.Time, err error) {
+	t := c09SpanFn.Type()
+	in := make([]reflect.Value, t.NumIn())
+	for k := range in {
+		in[k] = reflect.Zero(t.In(k))
+	}
+	out := c09SpanFn.Call(in)
+	if len(out) != 3 {
+		return time.Time{}, time.Time{}, fmt.Errorf("verif: span function has an unexpected shape %s", t)
+	}
+	b, ok1 := out[0].Interface().(time.Time)
+	e, ok2 := out[1].Interface().(time.Time)
+	if !ok1 || !ok2 {
+		return time.Time{}, time.Time{}, fmt.Errorf("verif: span function has an unexpected shape %s", t)
+	}
+	if x := out[2].Interface(); x != nil {
+		err, _ = x.(error)
+	}
+	return b, e, err
 }
 
 var c09TimesOfDay = []time.Duration{0, 1, 12 * time.Hour, 24*time.Hour - 1}
@@ -91,7 +119,7 @@ func c09Span(t *testing.T) {
 						continue
 					}
 					now = time.Unix(day*86400, 0).UTC().Add(tod)
-					begin, end, err := counterSpan()
+					begin, end, err := c09CallSpan()
 					r.Eval()
 					wb, wend := verifref.WeekSpan(day, we)
 					if err != nil {
@@ -166,7 +194,7 @@ func c09Malformed(t *testing.T) {
 			res.Distinct(fmt.Sprintf("%d/%d", si, verifref.Weekday(day)))
 			var begin, end time.Time
 			var err error
-			pv, stack := guarded(func() { begin, end, err = counterSpan() })
+			pv, stack := guarded(func() { begin, end, err = c09CallSpan() })
 			if pv != nil {
 				res.Violate("span-panic", fmt.Sprintf("counterSpan panicked with weekends=%s: %v\n%.800s", desc, pv, stack), map[string]any{"setting": si, "day": day})
 				continue
@@ -222,7 +250,7 @@ func c09Malformed(t *testing.T) {
 func c09Rotate(t *testing.T) {
 	const check = "C09.rotate"
 	res := verifrt.NewResult(check)
-	res.Rule = "sampled days (incl. month/year/leap boundaries) x settings: rotate1 creates a file whose name carries the begin date and whose metadata (read by the independent decoder) holds exactly begin/end; its return value (when the rotation timer fires) is the end instant; then Add(3), move the clock to end-1ns / end / end+1ns / end+3d / end+7d, rotate1, Add(5): before end both increments are in the first file and no second file exists, from end on the second increment is only in a new file named for the new begin date and the old file is unchanged (a rotate1 call on a later day of the same week may legitimately start a file [that day, same end): then the same split is required; on the same day nothing may rotate). distinct = (day, setting, delta) triples"
+	res.Rule = "sampled days (incl. month/year/leap boundaries) x settings: rotate1 creates a file whose name carries the begin date and whose metadata (read by the independent decoder) holds exactly begin/end; its return value (when the rotation timer fires) is the end instant; then Add(3), move the clock to end-1ns / end / end+1ns / end+3d / end+7d, rotate1, Add(5): before end both increments are in the first file and no second file exists, from end on the second increment is only in a new file named for the new begin date and the old file is unchanged (in a third of the cases past the end the week-end setting is changed before the rotation: the new file follows the new setting; a rotate1 call on a later day of the same week may legitimately start a file [that day, same end): then the same split is required; on the same day nothing may rotate). distinct = (day, setting, delta) triples"
 	n := verifrt.Scale(600, 20000)
 	deltas := []time.Duration{-1, 0, 1, 3 * 24 * time.Hour, 7 * 24 * time.Hour, -12 * time.Hour, -7 * 24 * time.Hour}
 	for i := 0; i < n; i++ {
@@ -309,6 +337,15 @@ func c09Rotate(t *testing.T) {
 			}
 			// move the clock relative to the end instant
 			now = time.Unix(wend*86400, 0).UTC().Add(delta)
+			weNow := we
+			if i%3 == 1 && delta >= 0 {
+				// the week-end setting changes while the process is running: the
+				// file opened by the rotation follows the setting in force then
+				weNow = (we + 1 + rnd.Intn(6)) % 7
+				s3 := fmt.Sprintf("%d\n", weNow)
+				c09Weekends(&s3)
+				res.Hit("setting-changed-before-rotation")
+			}
 			f.rotate1()
 			c.Add(5)
 			files, _ := filepath.Glob(filepath.Join(telemetry.Default.LocalDir(), "*.count"))
@@ -323,7 +360,7 @@ func c09Rotate(t *testing.T) {
 			if now.Unix() < 0 && now.Unix()%86400 != 0 {
 				nday--
 			}
-			nb, nend := verifref.WeekSpan(nday, we)
+			nb, nend := verifref.WeekSpan(nday, weNow)
 			if delta < 0 {
 				res.Hit("before-end")
 				if nend != wend {
@@ -369,7 +406,7 @@ func c09Rotate(t *testing.T) {
 			res.Sample(map[string]any{"case": i, "day": verifref.DateString(day), "weekend": we, "delta": delta.String()})
 		}
 	}
-	res.Require("before-end", "at-or-after-end", "same-span", "setting-changed-same-day")
+	res.Require("before-end", "at-or-after-end", "same-span", "setting-changed-same-day", "setting-changed-before-rotation")
 	if err := res.Write(); err != nil {
 		t.Fatal(err)
 	}
@@ -406,7 +443,7 @@ func c09Ticking(t *testing.T) {
 						readings++
 						return t
 					}
-					begin, end, err := counterSpan()
+					begin, end, err := c09CallSpan()
 					res.Eval()
 					res.Distinct(fmt.Sprintf("%d/%d/%v/%v", day, we, before, step))
 					rp := verifrt.CaseReplay(n, map[string]any{"day": verifref.DateString(day), "weekend": we, "before_midnight": before.String(), "step": step.String()})
